@@ -204,14 +204,14 @@ def drd_case(cls):
     return Case("%s/DiffusionRateDifference" % cls, run, functions=["%s::DiffusionRateDifference" % cls], conc=False)
 
 
-def compute_dxdt_case(cls):
-    P = "C02/%s::Compute_dxdt" % cls
+def compute_dxdt_case(cls, prop="C02"):
+    P = "%s/%s::Compute_dxdt" % (prop, cls)
 
     def run(api):
         prog = C11.program()
         c = api.ctx
         inv0 = dict(K.LOOP_INV)
-        I = K.make_interp(prog, c, "C02", loop_inv=inv0)
+        I = K.make_interp(prog, c, prop, loop_inv=inv0)
         o = _obj(I, cls)
         f = dict(o.fields)
         S, R, M = f["n_species"], f["n_reactions"], f["n_meshes"]
@@ -283,14 +283,14 @@ def compute_dxdt_case(cls):
     return Case("%s/Compute_dxdt" % cls, run, functions=["%s::Compute_dxdt" % cls], conc=False, max_paths=4000)
 
 
-def apply_dxdt_case(cls):
-    P = "C02/%s::Apply_dxdt" % cls
+def apply_dxdt_case(cls, prop="C02"):
+    P = "%s/%s::Apply_dxdt" % (prop, cls)
 
     def run(api):
         prog = C11.program()
         c = api.ctx
         inv0 = dict(K.LOOP_INV)
-        I = K.make_interp(prog, c, "C02", loop_inv=inv0)
+        I = K.make_interp(prog, c, prop, loop_inv=inv0)
         o = _obj(I, cls)
         f = dict(o.fields)
         S, M = f["n_species"], f["n_meshes"]
@@ -369,3 +369,11 @@ if z3 is not None:
         CASES += [tauleap_diffusion_case(_c), tauleap_reaction_case(_c)]
     for _c in ("Euler3D", "EulerGraph"):
         CASES += [drd_case(_c), compute_dxdt_case(_c), apply_dxdt_case(_c)]
+
+
+# Python seam (librdengine.py is one of the property's anchors): the stoichiometric and substrate matrices, the chemostat map and
+# the state reach the engine in the layout its contracts above are stated in - C04's marshalling cases, part of this check
+from props import C04 as _C04
+for _sp in ("grid", "graph"):
+    for _rm in (False, True):
+        CASES.append(_C04.marshal_case(_sp, _rm))
